@@ -72,6 +72,48 @@ func runC03(p *core.Prog, r *core.Report) {
 	// ---- R3: reversible outputs forgotten at every terminal step
 	checkReversibleForgotten(p, r, "C03.R3")
 
+	// ---- R3b: a block is (re)processed from an empty output buffer
+	r.Guard("C03.R3", "NewBuffer/fresh", "no stale outputs after a flip-back", func() {
+		fn := p.Func(pkgCache, "Engine.NewBuffer")
+		r.Touch(core.FuncName(fn))
+		mk := p.FuncObj(pkgExecout, "NewBuffer")
+		ok, n := true, 0
+		core.Instrs(fn, func(in ssa.Instruction) {
+			rt, isRet := in.(*ssa.Return)
+			if !isRet || !core.ReturnsNilError(rt) {
+				return
+			}
+			n++
+			seen := map[ssa.Value]bool{}
+			var walk func(v ssa.Value)
+			walk = func(v ssa.Value) {
+				v = core.ResolveCell(v)
+				if seen[v] {
+					return
+				}
+				seen[v] = true
+				switch x := v.(type) {
+				case *ssa.Phi:
+					for _, e := range x.Edges {
+						walk(e)
+					}
+				case *ssa.MakeInterface:
+					walk(x.X)
+				case *ssa.ChangeInterface:
+					walk(x.X)
+				case *ssa.Extract:
+					if c, isC := x.Tuple.(*ssa.Call); !isC || core.CommonCallee(c.Common()) != mk {
+						ok = false
+					}
+				default:
+					ok = false
+				}
+			}
+			walk(rt.Results[0])
+		})
+		r.Check(n > 0 && ok, "C03.R3", "Engine.NewBuffer/fresh", "every processing of a block starts from the buffer just created for it (pre-filled only from cache files): the buffer recorded when the same block was executed before an undo is never handed out again — its store entries are delta bytes, which the cached branch would replay as an operation log", "a success return hands out something else than the buffer created by execout.NewBuffer in this call", p.Pos(fn.Pos()))
+	})
+
 	// ---- R4: undo chain in the call graph
 	r.Guard("C03.R4", "undo-chain", "call-graph reachability", func() {
 		cg := p.CallGraph(false)
